@@ -328,3 +328,25 @@ extern void verif_os_free(uint64_t p, uint64_t size, uint64_t alignment);
 uint64_t X_malloc(uint64_t n) { return verif_os_alloc(n, 16); }
 void X_free(uint64_t p) { verif_os_free(p, 0, 0); }
 #endif
+
+/* thread-local destructors: __cxa_thread_atexit records, ir_thread_exit(tid) runs them (newest first) as thread tid */
+extern void ir_call_vp(uint64_t fn, uint64_t arg);
+#define IR_MAX_THREADS 4
+#define IR_MAX_TLS_DTORS 4
+static uint64_t tls_dtor_fn[IR_MAX_THREADS][IR_MAX_TLS_DTORS], tls_dtor_obj[IR_MAX_THREADS][IR_MAX_TLS_DTORS];
+static int tls_dtor_n[IR_MAX_THREADS];
+uint32_t X___cxa_thread_atexit(uint64_t fn, uint64_t obj, uint64_t dso)
+{
+    (void)dso;
+    IR_CHECK(ir_tid < IR_MAX_THREADS && tls_dtor_n[ir_tid] < IR_MAX_TLS_DTORS, "model bound: thread-local destructors");
+    tls_dtor_fn[ir_tid][tls_dtor_n[ir_tid]] = fn; tls_dtor_obj[ir_tid][tls_dtor_n[ir_tid]] = obj; tls_dtor_n[ir_tid]++;
+    return 0;
+}
+void ir_thread_exit(uint64_t tid)
+{
+    uint64_t keep = ir_tid; ir_tid = tid;
+    for (int i = IR_MAX_TLS_DTORS - 1; i >= 0; --i)
+        if (i < tls_dtor_n[tid]) ir_call_vp(tls_dtor_fn[tid][i], tls_dtor_obj[tid][i]);
+    tls_dtor_n[tid] = 0;
+    ir_tid = keep;
+}
